@@ -1,9 +1,10 @@
 (* Run_C26.v — correspondence: evaluate Model_Bloom on the log sets the harness
    fed to txresult.LogsBloom (AddLog / Merge / Contain / CompressedBytes) and
    report the indices of cases where an observation differs.
+   CompressedBytes is compared with the LZW model of C25.
    SHA3-256 is not computed in Coq: every case carries the (preimage, digest)
    pairs the model needs; a missing preimage makes the case fail. *)
-From Goloop Require Import lib.Bytes Model_Bloom.
+From Goloop Require Import lib.Bytes Model_Bloom Model_Lzw.
 Open Scope N_scope.
 
 (* how the harness merged: a leaf is one bloom that accumulated the listed logs
@@ -20,7 +21,7 @@ Inductive case :=
 | CBloom (tbl : list (bytes * bytes))
          (logs : list (bytes * list (option bytes)))
          (sh : shape)
-         (final_log_bytes final_bytes rt_log_bytes : bytes)
+         (final_log_bytes final_bytes compressed rt_log_bytes : bytes)
          (queries : list (list query * bool * bool)).
 
 Fixpoint tbl_find (tbl : list (bytes * bytes)) (pre : bytes) : option bytes :=
@@ -60,7 +61,7 @@ Fixpoint eval_shape (H : bytes -> N) (ls : list log) (s : shape) : option bloom 
 
 Definition check (c : case) : bool :=
   match c with
-  | CBloom tbl logs sh flb fb rlb queries =>
+  | CBloom tbl logs sh flb fb comp rlb queries =>
       let ls := map mk_log logs in
       let H := tbl_H tbl in
       forallb (fun l => forallb (tbl_has tbl) (items_of l)) ls &&
@@ -70,6 +71,8 @@ Definition check (c : case) : bool :=
       | Some b =>
           bytes_eqb (bloom_log_bytes b) flb &&
           bytes_eqb (bloom_bytes b) fb &&
+          bytes_eqb (compressed_bytes Model_Lzw.compress b) comp &&
+          match of_compressed Model_Lzw.decompress comp with Some b' => b' =? b | None => false end &&
           bytes_eqb (bloom_log_bytes b) rlb &&
           forallb (fun q =>
                      let m := query_bloom H (map query_item (fst (fst q))) in
